@@ -124,3 +124,32 @@ CLAIMS["C02"] = dict(
          "Park.tla behaviours is not wired up (labels of the draft differ from the hook names in places); SC memory; bounded instances.",
     design_ref="DESIGN.md §6 C02",
 )
+
+CLAIMS["C15"] = dict(
+    text="Reuse.tla (the life of one pooled generator: its single result slot `para`, the cancel bit, the slot a suspended "
+         "coroutine sits in, the timer, for a first occupant that ends normally, by a panic, cancelled in park / sleep, "
+         "after a time-out, or cancelled inside EventSender::send exactly between check_cancel and the yield, followed by an "
+         "innocent coroutine on the same stack) and Cls.tla (every event-source kind x every way of being resumed x programs "
+         "of up to 3 calls) are checked exhaustively by TLC: a fresh coroutine starts with an empty result slot and its first "
+         "blocking call reports nothing stale. The pinned tree's counter-example (F14) is shown with the switch off. Reuse.tla "
+         "behaviours are replayed step by step into the real runtime with pool capacity 1 (stack reuse is verified per "
+         "execution by comparing stack addresses); seeded and preemption-bounded schedules are explored. The `cls` scenario "
+         "explores coroutine_local! keys in coroutines and a thread under yields, migration (timer-thread resumption), a "
+         "cancel and panics. Oracle: first access sees the initial value, values survive yields/migration, initialiser once "
+         "per context, each coroutine value dropped exactly once, thread fallback intact, the innocent's park returns Ok.",
+    note="The map semantics of CoroutineLocal itself (TypeId-keyed HashMap) is exercised, not modelled; SC memory; bounded instances.",
+    design_ref="DESIGN.md §6 C15",
+)
+CLAIMS["C13"] = dict(
+    text="Poison.tla (guard creation / drop against thread::panicking and the cancel state: normal exit, user panic, Cancel "
+         "unwind, guard created while already panicking, user panic with a cancel pending) is checked exhaustively by TLC: "
+         "poisoned iff a holder panicked inside its guard, released in every case; the pinned tree's counter-example (F21) is "
+         "shown with the switch off. RwLock.tla (C12) covers the write-guard paths, Cqueue.tla / Scope.tla the re-raise by "
+         "select / scope owners. The real code is explored under the baton: Mutex holders that panic, are cancelled inside the "
+         "guard, or panic with a cancel pending (LockResult of every later acquisition and is_poisoned judged); RwLock panic "
+         "units replayed from RwLock.tla; a coroutine and coroutine-locals on the stack of a panicked one; scope / select "
+         "owners with panicking children and arms. Oracle: payload at the right JoinHandle only, others finish, poison state.",
+    note="Aggregates units of C12, C14, C15, C16 that involve a panic; worker-thread survival is implied by every later "
+         "execution in the same process running normally (a dead worker shows as a hang).",
+    design_ref="DESIGN.md §6 C13",
+)
